@@ -734,7 +734,7 @@ class CSSMatch(_DocumentNav):
 
                 # Can't match a prefix attribute as we haven't specified one to match
                 # Try to match it normally as a whole `p:a` as selector may be trying `p\:a`.
-                if ns is None:
+                if not prefix:
                     if (self.is_xml and attr == k) or (not self.is_xml and util.lower(attr) == util.lower(k)):
                         value = v
                         break
@@ -743,8 +743,12 @@ class CSSMatch(_DocumentNav):
                     # Ignore the false positive message.
                     continue  # pragma: no cover
 
+                # `*|attr` matches the attribute in any namespace, and also without one
+                # (the whole key is then the attribute's name).
+                if prefix == '*' and namespace is None:
+                    name = k
                 # We can't match our desired prefix attribute as the attribute doesn't have a prefix
-                if namespace is None or (ns != namespace and prefix != '*'):
+                elif namespace is None or (ns != namespace and prefix != '*'):
                     continue
 
                 # The attribute doesn't match.
